@@ -113,7 +113,7 @@ fn judge(acc: &mut Acc, base: &Base, mutated: &str, lib: bool, form: &str, what:
 
 pub fn build(tier: Tier) -> Check<'static> {
     let mut c = Check::new("C12", tier, "6/C12");
-    c.rule = "accepted seed x trivia form x (all plain gaps at once | each single plain gap | `resetall before each top-level description); rejected mutants must stay rejected; non-trivial = mutated source differs from the original, distinct by hash".into();
+    c.rule = "accepted seed x trivia form x (all plain gaps at once | each single plain gap | `resetall before each top-level description, followed by a line end or by each trivia form); rejected mutants must stay rejected; non-trivial = mutated source differs from the original, distinct by hash".into();
     c.assumptions = vec![
         "gaps containing a compiler directive and gaps inside directives are left alone".into(),
         "the blank terminating an escaped identifier is treated as part of that token".into(),
@@ -187,6 +187,42 @@ pub fn build(tier: Tier) -> Check<'static> {
                     }
                 }
             }
+        }));
+    }
+    {
+        // `resetall is a description of its own in the SystemVerilog grammar: the trivia that follows
+        // it is owned by the directive's keyword, not by a token of the surrounding construct
+        let s = seeds.clone();
+        c.parts.push(Part::new("resetall-trivia", (s.len() * nf) as u64, "`resetall before every top-level description of each accepted seed, followed by each of the 16 trivia forms instead of a line end", move |i, acc| {
+            let seed = &s[(i as usize) / nf];
+            let form = FORMS[(i as usize) % nf];
+            if seed.is_lib() {
+                return;
+            }
+            let Some(base) = base_of(&seed.text, false) else { return };
+            if base.descr.is_empty() {
+                return;
+            }
+            let with = |ins: &str| {
+                let mut m = String::new();
+                let mut last = 0;
+                for p in &base.descr {
+                    m.push_str(&base.text[last..*p]);
+                    m.push_str(ins);
+                    last = *p;
+                }
+                m.push_str(&base.text[last..]);
+                m
+            };
+            // reference: the line-end form, which the "resetall" part compares with the original
+            let Some(base2) = base_of(&with("`resetall\n"), false) else {
+                acc.class("reference-form-rejected (reported by part resetall)");
+                return;
+            };
+            let sep = if form.starts_with(|c: char| c.is_ascii_whitespace() || c == '/') { "" } else { " " };
+            let m = with(&format!("`resetall{}{}", sep, form));
+            acc.distinct(fnv(m.as_bytes()));
+            judge(acc, &base2, &m, false, form, &format!("seed {} `resetall followed by the trivia form", seed.id));
         }));
     }
     {
